@@ -120,13 +120,15 @@ type Violation struct {
 }
 
 type Sim struct {
-	T     *Tape
-	Cfg   Config
-	Store *Store
-	Proc  *Process
-	Env   *Env
-	User  *User // first user (single-rollout runs)
-	Users []*User
+	Flags      map[string]bool // facts one oracle leaves for another
+	HarnessErr string          // first fault of the harness itself (oracle panic); reported as trouble, never as a violation
+	T          *Tape
+	Cfg        Config
+	Store      *Store
+	Proc       *Process
+	Env        *Env
+	User       *User // first user (single-rollout runs)
+	Users      []*User
 
 	start    time.Time
 	mapper   meta.RESTMapper
